@@ -101,10 +101,29 @@ class CallsMixin:
     def concat(self, pieces):
         if all(p.conc() for p in pieces):
             return S("".join(p.v for p in pieces))
-        zs = [p.z() for p in pieces]
-        if len(zs) == 1:
-            return S(zs[0])
-        return S(z3.Concat(*zs))
+        # cross product over the alternatives of the symbolic pieces
+        acc = [(True, "")]
+        for p in pieces:
+            nxt = []
+            for c1, a in acc:
+                for c2, b in p.leaves():
+                    c = band(c1, c2)
+                    if c is not False:
+                        nxt.append((c, a + b))
+            if len(nxt) > 512:
+                raise Unsupported("string concatenation with too many alternatives")
+            acc = nxt
+        res = None
+        for c, txt in reversed(acc):
+            res = S(txt) if res is None else ite(c, S(txt), res)
+        return res
+
+    def int_to_str(self, e, depth=0):
+        if z3.is_int_value(e):
+            return S(str(e.as_long()))
+        if z3.is_app_of(e, z3.Z3_OP_ITE) and depth < 16:
+            return ite(e.arg(0), self.int_to_str(e.arg(1), depth + 1), self.int_to_str(e.arg(2), depth + 1))
+        raise Unsupported("to_string of a free symbolic integer (strings are interned alternatives)")
 
     def to_str(self, v, debug=False):
         v = self.ip.deref(v)
@@ -115,11 +134,11 @@ class CallsMixin:
         if isinstance(v, I):
             if v.conc():
                 return S(str(v.v))
-            return S(z3.If(v.z() >= 0, z3.IntToStr(v.z()), z3.Concat(z3.StringVal("-"), z3.IntToStr(-v.z()))))
+            return self.int_to_str(v.z())
         if isinstance(v, bool):
             return S("true" if v else "false")
         if is_sym(v) and z3.is_bool(v):
-            return S(z3.If(v, z3.StringVal("true"), z3.StringVal("false")))
+            return ite(v, S("true"), S("false"))
         if isinstance(v, F) and v.conc():
             r = repr(v.v)
             if r.endswith(".0") and not debug:
